@@ -55,6 +55,8 @@ pub struct Sizes {
     pub max_backends: usize,
     /// 0..=100: probability (percent) that an optional key is written
     pub density: u64,
+    /// may clusters carry frontends on undeclared addresses?
+    pub implicit: bool,
 }
 
 pub struct Gen<'a> {
@@ -370,6 +372,42 @@ pub fn advertises_h2(l: &Listener) -> bool {
     }
 }
 
+/// listeners the file does not declare but its frontends need: address -> protocol (HTTP cluster
+/// frontend with certificate => HTTPS, without => HTTP, TCP cluster frontend => TCP)
+pub fn implicit_listeners(m: &Model) -> BTreeMap<SocketAddr, LProto> {
+    let declared: BTreeSet<SocketAddr> = m.listeners.iter().map(|l| l.addr).collect();
+    let mut out = BTreeMap::new();
+    for c in &m.clusters {
+        for f in &c.frontends {
+            if !declared.contains(&f.addr) {
+                let has_cert = f.cert.is_some() || f.opts.contains_key("certificate");
+                let p = if !c.http { LProto::Tcp } else if has_cert { LProto::Https } else { LProto::Http };
+                out.entry(f.addr).or_insert(p);
+            }
+        }
+    }
+    out
+}
+
+/// The documented HTTP/2 rule, on the model: "Sōzu rejects start-up if buffer_size < 16393 and
+/// any HTTPS listener advertises h2 in its ALPN list". It holds for every HTTPS listener of the
+/// resulting configuration: the declared ones and the default ones created for frontends on
+/// undeclared addresses (those advertise the default ALPN list, h2 first). Returns which kind of
+/// listener breaks the rule.
+pub fn h2_rule_broken(m: &Model) -> Option<&'static str> {
+    let buffer = m.global.get("buffer_size").and_then(|v| v.as_u64()).unwrap_or(16_393);
+    if buffer >= 16_393 {
+        return None;
+    }
+    if m.listeners.iter().any(|l| l.proto == LProto::Https && l.proto_text.as_deref() == Some("https") && advertises_h2(l)) {
+        return Some("declared");
+    }
+    if implicit_listeners(m).values().any(|p| *p == LProto::Https) {
+        return Some("implicit");
+    }
+    None
+}
+
 /// build a valid model of roughly the requested sizes
 pub fn valid_model(rng: &mut Rng, sz: Sizes) -> Model {
     let mut m = Model::default();
@@ -440,6 +478,9 @@ pub fn valid_model(rng: &mut Rng, sz: Sizes) -> Model {
     let mut free_l4: Vec<usize> = (0..m.listeners.len()).filter(|i| matches!(m.listeners[*i].proto, LProto::Tcp | LProto::Udp)).collect();
     g.rng.shuffle(&mut free_l4);
     let mut keys = BTreeSet::new();
+    let implicit_share: u64 = if sz.implicit { *g.rng.pick(&[0u64, 0, 15, 40, 100]) } else { 0 };
+    let mut implicit_http: Vec<SocketAddr> = Vec::new();
+    let mut implicit_https: Vec<SocketAddr> = Vec::new();
     for ci in 0..sz.clusters {
         let want_http = g.rng.chance(2, 3);
         let id = match g.rng.below(8) {
@@ -573,6 +614,39 @@ pub fn valid_model(rng: &mut Rng, sz: Sizes) -> Model {
         }
         if !want_http && g.opt() {
             c.opts.insert("retry_after", Tv::I(g.rng.below(600)));
+        }
+        // frontends on addresses no `[[listeners]]` entry declares (lexicon: a frontend "should be
+        // defined with a matching listener"; the loader creates a default one): HTTP without
+        // certificate, HTTPS with certificate (its default ALPN offers h2: only with a buffer_size
+        // of at least 16393), TCP (never on a cluster whose listeners expect PROXY headers)
+        if implicit_share > 0 && g.rng.below(100) < implicit_share {
+            for _ in 0..1 + g.rng.below(3) {
+                if want_http {
+                    let https = !small_buffer && g.rng.bool();
+                    let pool = if https { &mut implicit_https } else { &mut implicit_http };
+                    let a = if !pool.is_empty() && g.rng.chance(1, 3) {
+                        *g.rng.pick(pool.as_slice())
+                    } else {
+                        let a = g.addr();
+                        pool.push(a);
+                        a
+                    };
+                    let mut ghost = Listener::new(if https { LProto::Https } else { LProto::Http }, a);
+                    ghost.cert = None;
+                    let mut f = g.http_frontend(&ghost, &mut keys);
+                    if !https {
+                        f.cert = None;
+                        f.hsts = None;
+                    }
+                    c.frontends.push(f);
+                } else {
+                    let expects = c.frontends.iter().any(|f| m.listeners.iter().any(|l| l.addr == f.addr && l.opts.get("expect_proxy") == Some(&Tv::B(true))));
+                    if !expects {
+                        let a = g.addr();
+                        c.frontends.push(Frontend::new(a));
+                    }
+                }
+            }
         }
         if g.opt() {
             c.opts.insert("load_balancing", Tv::S((*g.rng.pick(LB)).to_owned()));
